@@ -65,6 +65,13 @@ theorem mapDirect_sound (slv : Solver R) (m n : ℕ) (Af : ℕ → ℕ → R) (C
       simp only [sysMat]
       exact sumTo_congr _ _ _ fun k hk => by simp only [bidx_lt hk]
 
+/-- **mapMethod_ignores_x0.**  On the closed-form route `MAP(disp, x0)` does not depend on the
+    user's initial guess `x0` nor on `disp`: the prior mean is read from the prior. -/
+theorem mapMethod_ignores_x0 (slv : Solver R) (disp disp' : Bool) (u u' : Option (NArr R)) (A : NArr R)
+    (rd dd : ℕ) (ce cx : Option (NArr R)) (pm b : NArr R) :
+    mapMethod slv disp u A rd dd ce cx pm b = mapMethod slv disp' u' A rd dd ce cx pm b ∧
+    mapMethod slv disp u A rd dd ce cx pm b = mapDirect slv A rd dd ce cx pm b := ⟨rfl, rfl⟩
+
 /-- a concrete solver for the examples: the constant candidate `s`, accepted only if it solves -/
 def constSolver (s : ℕ → R) : Solver R := fun _ _ _ => some s
 
@@ -283,6 +290,9 @@ theorem gaussian_post_stationary_of_max (A : Matrix (Fin m) (Fin n) K) (We : Mat
       have : (1:K) ^ 2 / 2 = 1 / 2 := by norm_num
       rw [this]; nlinarith
     nlinarith [key 1]
+
+/- `ml_full_column_rank` (the weighted least-squares point is the unique maximiser of the likelihood for a
+   full-column-rank model) is proved in `Props/C15_analysis.lean` with Mathlib's `PosDef`/`rank`. -/
 
 /-- **mapDirect_is_maximiser** (`gaussian_post_maximiser` on the executable model).  What the
     closed-form branch returns for 2-D / scalar covariances is the unique maximiser of the
@@ -543,10 +553,10 @@ variable {X : Type} {K : Type} [AddCommGroup K] [PartialOrder K] [IsOrderedAddMo
 theorem maximize_sign (logd : X → K) (grad : Option (X → X)) (negX : X → X) (x0 xs : X) (S : Set X) :
     let P := solveMaxPointProblem logd grad negX x0
     ((∀ y ∈ S, P.func xs ≤ P.func y) ↔ (∀ y ∈ S, logd y ≤ logd xs)) ∧
-    P.x0 = x0 ∧ wrapperResult xs = xs ∧
+    P.x0 = x0 ∧ wrapperResult xs = xs ∧ startPoint (none : Option X) x0 = x0 ∧ startPoint (some xs) x0 = xs ∧
     (∀ g, grad = some g → ∃ g', P.gradfunc = some g' ∧ ∀ x, g' x = negX (g x)) ∧
     (grad = none → P.gradfunc = none) := by
-  refine ⟨?_, rfl, rfl, ?_, ?_⟩
+  refine ⟨?_, rfl, rfl, rfl, rfl, ?_, ?_⟩
   · simp only [solveMaxPointProblem, neg_le_neg_iff]
   · intro g hg; subst hg; exact ⟨_, rfl, fun _ => rfl⟩
   · intro hg; subst hg; rfl
